@@ -306,6 +306,27 @@ fn abstract_req(raw: &[u8]) -> Value {
         if !opel.cons {
             arg = ber::uint_of(&opel.val);
         }
+    } else if opname == "search" {
+        // search options and the argument tuple are recognised separately:
+        // kids = base, scope, deref, sizelimit, timelimit, typesonly, filter, attributes
+        if opel.kids.len() == 8 {
+            let opts: Vec<Vec<u8>> = opel.kids[2..6].iter().map(encode_el).collect();
+            for s in 0..2 {
+                if let Some((e, _)) = op_bytes("search", 0, s).and_then(|b| ber::decode(&b)) {
+                    if e.kids[2..6].iter().map(encode_el).collect::<Vec<_>>() == opts {
+                        so = s;
+                    }
+                }
+            }
+            let pick = |e: &El| [0usize, 1, 6, 7].iter().map(|k| encode_el(&e.kids[*k])).collect::<Vec<_>>();
+            for a in 0..3 {
+                if let Some((e, _)) = op_bytes("search", a, 0).and_then(|b| ber::decode(&b)) {
+                    if pick(&e) == pick(opel) {
+                        arg = a;
+                    }
+                }
+            }
+        }
     } else {
         'outer: for a in 0..4 {
             for s in 0..2 {
@@ -810,7 +831,7 @@ fn finish_obs(srv: &ServerHandle, ret: RetP, subs: Vec<RetP>, lastid: i64, close
 // the only differences are the handle types and `.await`.
 
 macro_rules! lane_steps {
-    ($conn:ident, $script:ident, $srv:ident, $obs:ident, [$($aw:tt)*], $finish:ident, $slast:ident) => {
+    ($conn:ident, $script:ident, $srv:ident, $obs:ident, [$($aw:tt)*], $finish:ident, $slast:ident, $idle:ident) => {
         for st in &$script.steps {
             $srv.begin_step(&st.srv);
             match st.ctl {
@@ -875,6 +896,8 @@ macro_rules! lane_steps {
                 "is_closed" => { let v = $conn.is_closed(); RetP::val(v as i64, format!("{}", v)) }
                 "get_peer_certificate" => p_cert($conn.get_peer_certificate()$($aw)*),
                 "noop" => RetP::plain("-"),
+                // not part of the model or of any generated script: lets `sync-run one` show what passing time does
+                "idle" => { $idle!(); RetP::plain("-") }
                 other => RetP::new("other", "UnknownCall", other.to_string()),
             };
             let hung = $srv.hung();
@@ -896,6 +919,16 @@ fn is_stream(call: &str) -> bool {
 macro_rules! slast_sync {
     ($s:expr) => {
         $s.last_id()
+    };
+}
+macro_rules! idle_sync {
+    () => {
+        std::thread::sleep(Duration::from_millis(30))
+    };
+}
+macro_rules! idle_async {
+    () => {
+        tokio::time::sleep(Duration::from_millis(30)).await
     };
 }
 macro_rules! slast_async {
@@ -920,7 +953,7 @@ fn run_sync(script: &Script, srv: &ServerHandle, sock: Option<UnixStream>, url: 
         _ => LdapConn::from_url(&parsed),
     };
     let mut conn = opened.map_err(|e| format!("{:?}", e))?;
-    lane_steps!(conn, script, srv, obs, [], result, slast_sync);
+    lane_steps!(conn, script, srv, obs, [], result, slast_sync, idle_sync);
     drop(conn);
     Ok(())
 }
@@ -937,7 +970,7 @@ fn run_async(script: &Script, srv: &ServerHandle, sock: Option<UnixStream>, url:
         };
         let (conn, mut ldap) = opened.map_err(|e| format!("{:?}", e))?;
         ldap3::drive!(conn);
-        lane_steps!(ldap, script, srv, obs, [.await], finish, slast_async);
+        lane_steps!(ldap, script, srv, obs, [.await], finish, slast_async, idle_async);
         drop(ldap);
         Ok::<(), String>(())
     });
@@ -1024,9 +1057,9 @@ fn ret_equal(x: &RetP, y: &RetP, coarse: bool) -> bool {
 }
 
 fn ret_key(method: &str, st: &Step, x: &RetP, y: &RetP) -> String {
-    let t = |r: &RetP| r.out == "timeout" || r.out == "hang";
-    if (t(x) || t(y)) && x.out != y.out {
-        let _ = st;
+    // one lane gives up after the timeout where the other one blocks: the timeout was not (or wrongly) applied
+    let _ = st;
+    if (x.out == "timeout" && y.out == "hang") || (x.out == "hang" && y.out == "timeout") {
         return "c14:with_timeout:return-differs".to_string();
     }
     format!("c14:{}:return-differs", method)
